@@ -45,6 +45,12 @@ pub mod cmp {
     #[compound]
     pub struct Rec(LTerm, Rec);
 
+    #[compound]
+    pub struct Holder {
+        item: Option<LTerm>,
+        tag: LTerm,
+    }
+
     pub fn rec_from_lterm<U: User, E: Engine<U>>(inner: LTerm<U, E>) -> Rec<U, E> {
         Rec { inner }
     }
@@ -99,6 +105,14 @@ impl<U: User, E: Engine<U>> Env<U, E> {
             T::S(s) => LTerm::from(s.as_str()),
             T::Nil => LTerm::empty_list(),
             T::Cons(h, tl) => LTerm::cons(self.enc(h), self.enc(tl)),
+            T::Cmp(Tag::Holder, fs) => {
+                let item: Option<LTerm<U, E>> = match &fs[0] {
+                    T::Cmp(Tag::OptSome, x) => Some(self.enc(&x[0])),
+                    T::Cmp(Tag::OptNone, _) => None,
+                    other => panic!("harness error: the item of a Holder is OptSome(_) or OptNone, not {}", other),
+                };
+                Upcast::into_super(Downcast::into_sub(cmp::Holder_compound::_InnerHolder { item, tag: self.enc(&fs[1]) }))
+            }
             T::Cmp(tag, fs) => {
                 let f: Vec<LTerm<U, E>> = fs.iter().map(|x| self.enc(x)).collect();
                 match tag {
@@ -124,6 +138,7 @@ impl<U: User, E: Engine<U>> Env<U, E> {
                     ))),
                     Tag::Tuple => Upcast::into_super(Downcast::into_sub((f[0].clone(), f[1].clone()))),
                     Tag::Some => Into::<LTerm<U, E>>::into(Some(f[0].clone())),
+                    Tag::Holder | Tag::OptSome | Tag::OptNone => panic!("harness error: {} is only encodable inside a Holder", tag.name()),
                 }
             }
         }
@@ -198,7 +213,11 @@ impl<'a, U: User, E: Engine<U>> Dec<'a, U, E> {
             "Named" => Tag::Named,
             "Rec" => Tag::Rec,
             "" => Tag::Tuple,
-            "Some" => Tag::Some,
+            "Holder" => Tag::Holder,
+            // an Option FIELD of a compound struct (a top-level Some(x) is x's own object and
+            // never shows this name)
+            "Some" => Tag::OptSome,
+            "None" => Tag::OptNone,
             other => return T::Cmp(Tag::Box1, vec![T::S(format!("<unknown compound {}>", other))]),
         };
         T::Cmp(tag, fs)
